@@ -1,13 +1,15 @@
 import AL.Model.ParseWf
 import AL.Model.Needs
 import AL.Model.Glob
+import AL.Gen.Webhooks
 /-
   The rules that need nothing but the AST, as functions of the AST the parser model produces, and the tail of
   `Linter.check` (all diagnostics of the parser and of the rules, stably sorted by position):
 
     rule_matrix.go       (through AL.Matrix)      rule_credentials.go     rule_job_needs.go (through AL.Needs)
     rule_env_var.go      rule_id.go               rule_glob.go (through AL.Glob)
-    rule_permissions.go  rule_if_cond.go
+    rule_permissions.go  rule_if_cond.go          rule_shell_name.go      rule_deprecated_commands.go
+    rule_events.go (all but the CRON check)
 
   in the order linter.go creates them. The visitor (pass.go) walks `Workflow.Jobs`, a Go map: here the jobs are visited
   in the order of the association list (source order). A rule's state that lives across callbacks is explicit
@@ -251,6 +253,234 @@ def ruleGlob (w : Workflow) : List Diag :=
       checkGlobs false h.paths ++ checkGlobs false h.pathsIgnore
     | _ => []
 
+/-! ### rule_shell_name.go -/
+
+inductive Platform where | any | macOrLinux | windows
+deriving Repr, DecidableEq
+
+def availableShells : Platform → List String
+  | .any => ["bash", "pwsh", "python", "sh", "cmd", "powershell"]
+  | .windows => ["bash", "pwsh", "python", "cmd", "powershell"]
+  | .macOrLinux => ["bash", "pwsh", "python", "sh"]
+
+def labelPlatform (lower : String → String) (label : String) : Platform :=
+  let l := lower label
+  if l.startsWith "windows-" || l = "windows" then .windows
+  else if l.startsWith "macos-" || l.startsWith "ubuntu-" || l = "macos" || l = "linux" then .macOrLinux
+  else .any
+
+/-- `getPlatformFromRunner`: the loop over the labels; `none` = two different platforms were seen -/
+def platformLoop (lower : String → String) : List Str → Platform → Platform
+  | [], ret => ret
+  | l :: rest, ret =>
+    let k := labelPlatform lower l.value
+    if k = .any then platformLoop lower rest ret
+    else if ret ≠ .any && ret ≠ k then .any
+    else platformLoop lower rest k
+
+def platformOf (lower : String → String) (r : Runner) : Platform := platformLoop lower (r.labels.getD []) .any
+
+def containsSub (pat s : String) : Bool := (AL.Matrix.indexOf pat.toList s.toList 0).isSome
+
+/-- `checkShellName` -/
+def checkShellName (lower : String → String) (pf : Platform) (node : Option Str) : List Diag :=
+  match node with
+  | none => []
+  | some n =>
+    if containsSub "{0}" n.value then []
+    else if containsExpr n then []
+    else
+      let name := lower n.value
+      if (availableShells pf).contains name then []
+      else
+        let on := match pf with
+          | .windows => if (availableShells .any).contains name then " on Windows" else ""
+          | .macOrLinux => if (availableShells .any).contains name then " on macOS or Linux" else ""
+          | .any => ""
+        [⟨n.pos, "shell-name", "shell-name", [n.value, on]⟩]
+
+def defaultsShell (d : Option Defaults) : Option Str :=
+  match d with
+  | some d => (match d.run with | some r => r.shell | none => none)
+  | none => none
+
+/-- `VisitJobPre`, the steps, `VisitJobPost` (which clears the platform: every job starts from `any`) -/
+def shellNameJob (lower : String → String) (j : Job) : List Diag :=
+  let pf := match j.runsOn with | some r => platformOf lower r | none => Platform.any
+  (match j.runsOn with
+   | some _ => checkShellName lower pf (defaultsShell j.defaults)
+   | none => []) ++
+  (stepsOf j).flatMap fun st => match st.exec with
+    | .run e => checkShellName lower pf e.shell
+    | _ => []
+
+def ruleShellName (lower : String → String) (w : Workflow) : List Diag :=
+  checkShellName lower .any (defaultsShell w.defaults) ++ (jobsOf w).flatMap (shellNameJob lower)
+
+/-! ### rule_deprecated_commands.go -/
+
+def isReSpace (c : Char) : Bool := c = '\t' || c = '\n' || c = '\x0c' || c = '\r' || c = ' '
+def isAsciiLetter (c : Char) : Bool := ('a' ≤ c && c ≤ 'z') || ('A' ≤ c && c ≤ 'Z')
+
+/-- `::(save-state|set-output|set-env)\s+name=[a-zA-Z][a-zA-Z_-]*::\S+` or `::(add-path)::\S+` at the head of `cs`:
+the command and what is left after the match -/
+def matchDeprecated (cs : List Char) : Option (String × List Char) :=
+  if !"::".toList.isPrefixOf cs then none
+  else
+    let r := cs.drop 2
+    let named (cmd : String) : Option (String × List Char) :=
+      if !cmd.toList.isPrefixOf r then none
+      else
+        let r1 := r.drop cmd.length
+        let r2 := r1.dropWhile isReSpace
+        if r2.length = r1.length then none
+        else if !"name=".toList.isPrefixOf r2 then none
+        else
+          match r2.drop 5 with
+          | c :: r3 =>
+            if !isAsciiLetter c then none
+            else
+              let r4 := r3.dropWhile fun c => isAsciiLetter c || c = '_' || c = '-'
+              if !"::".toList.isPrefixOf r4 then none
+              else
+                let r5 := r4.drop 2
+                let r6 := r5.dropWhile fun c => !isReSpace c
+                if r6.length = r5.length then none else some (cmd, r6)
+          | [] => none
+    match named "save-state" with
+    | some x => some x
+    | none =>
+      match named "set-output" with
+      | some x => some x
+      | none =>
+        match named "set-env" with
+        | some x => some x
+        | none =>
+          if !"add-path::".toList.isPrefixOf r then none
+          else
+            let r5 := r.drop 10
+            let r6 := r5.dropWhile fun c => !isReSpace c
+            if r6.length = r5.length then none else some ("add-path", r6)
+
+/-- `FindAllStringSubmatch(s, -1)`: leftmost, non-overlapping -/
+def findDeprecated : Nat → List Char → List String
+  | 0, _ => []
+  | _, [] => []
+  | fuel + 1, c :: cs =>
+    match matchDeprecated (c :: cs) with
+    | some (cmd, rest) => cmd :: findDeprecated fuel rest
+    | none => findDeprecated fuel cs
+
+def ruleDeprecatedCommands (w : Workflow) : List Diag :=
+  (jobsOf w).flatMap fun j => (stepsOf j).flatMap fun st =>
+    match st.exec with
+    | .run e =>
+      (match e.run with
+       | some r => (findDeprecated (r.value.length + 1) r.value.toList).map fun cmd => ⟨r.pos, "deprecated-commands", "deprecated-command", [cmd]⟩
+       | none => [])
+    | _ => []
+
+/-! ### rule_events.go (everything but the CRON check, which is `robfig/cron`) -/
+
+def filterEmpty (f : Option Filter) : Bool :=
+  match f with
+  | none => true
+  | some f => (f.values.getD []).isEmpty
+
+def isBefore (a b : Pos) : Bool := a.line < b.line || (a.line = b.line && a.col < b.col)
+
+/-- `checkExclusiveFilters` -/
+def exclusiveFilters (filter ignore : Option Filter) (hook : String) (available : List String) : List Diag :=
+  if available.contains hook then
+    match filter, ignore with
+    | some f, some i =>
+      if !filterEmpty (some f) && !filterEmpty (some i) then
+        let p := if isBefore f.name.pos i.name.pos then i.name.pos else f.name.pos
+        [⟨p, "events", "filters-exclusive", [f.name.value, i.name.value, hook]⟩]
+      else []
+    | _, _ => []
+  else
+    (match filter with
+     | some f => if !filterEmpty (some f) then [⟨f.name.pos, "events", "filter-not-available", [f.name.value, hook]⟩] else []
+     | none => []) ++
+    (match ignore with
+     | some i => if !filterEmpty (some i) then [⟨i.name.pos, "events", "filter-not-available", [i.name.value, hook]⟩] else []
+     | none => [])
+
+/-- `checkWebhookEvent` -/
+def checkWebhookEvent (e : WebhookEvent) : List Diag :=
+  let hook := e.hook.value
+  match AL.Gen.webhookTypes.find? (·.1 = hook) with
+  | none => [⟨e.pos, "events", "unknown-webhook", [hook]⟩]
+  | some (_, expected) =>
+    let types := e.types.getD []
+    let dTypes :=
+      if expected.isEmpty && !types.isEmpty then [⟨e.hook.pos, "events", "types-not-allowed", [hook]⟩]
+      else types.flatMap fun ty => if expected.contains ty.value then [] else [⟨ty.pos, "events", "invalid-activity-type", [ty.value, hook]⟩]
+    let wfs := e.workflows.getD []
+    let dWf :=
+      if hook = "workflow_run" then (if wfs.isEmpty then [⟨e.pos, "events", "workflow-run-no-workflows", []⟩] else [])
+      else (if !wfs.isEmpty then [⟨e.pos, "events", "workflows-not-allowed", [hook]⟩] else [])
+    dTypes ++ dWf ++
+    exclusiveFilters e.paths e.pathsIgnore hook ["push", "pull_request", "pull_request_target"] ++
+    exclusiveFilters e.branches e.branchesIgnore hook ["merge_group", "push", "pull_request", "pull_request_target", "workflow_run"] ++
+    exclusiveFilters e.tags e.tagsIgnore hook ["push"]
+
+/-- `checkWorkflowCallEvent` -/
+def checkCallEvent (lower : String → String) (isNum : String → Bool) (inputs : List CallInput) : List Diag :=
+  inputs.flatMap fun i =>
+    match i.dflt with
+    | none => []
+    | some d =>
+      (if !containsExpr d then
+        (match i.type with
+         | .number => if isNum d.value then [] else [⟨d.pos, "events", "call-default-not-number", [i.name.value, d.value]⟩]
+         | .boolean => if lower d.value = "true" || lower d.value = "false" then [] else [⟨d.pos, "events", "call-default-not-bool", [i.name.value, d.value]⟩]
+         | _ => [])
+       else []) ++
+      (if (match i.required with | some r => r.value | none => false) then [⟨d.pos, "events", "call-default-and-required", [i.name.value, d.value]⟩] else [])
+
+def dupOptions : List Str → List String → List Diag × List String
+  | [], seen => ([], seen)
+  | o :: rest, seen =>
+    if seen.contains o.value then
+      let r := dupOptions rest seen
+      ((⟨o.pos, "events", "option-duplicated", [o.value]⟩ : Diag) :: r.1, r.2)
+    else dupOptions rest (seen ++ [o.value])
+
+/-- `checkWorkflowDispatchEvent` -/
+def checkDispatchEvent (lower : String → String) (isNum : String → Bool) (inputs : List (String × DispatchInput)) (pos : Pos) : List Diag :=
+  (inputs.flatMap fun kv =>
+    let n := kv.1
+    let i := kv.2
+    let opts := i.options.getD []
+    if i.type = .choice then
+      if opts.isEmpty then [⟨i.name.pos, "events", "choice-without-options", [n]⟩]
+      else
+        let r := dupOptions opts []
+        r.1.map (fun d => { d with args := d.args ++ [n] }) ++
+        (match i.dflt with
+         | some d => if r.2.contains d.value then [] else [⟨d.pos, "events", "default-not-in-options", [d.value, n]⟩]
+         | none => [])
+    else
+      (if !opts.isEmpty then [⟨i.name.pos, "events", "options-without-choice", [n]⟩] else []) ++
+      (match i.dflt with
+       | some d =>
+         (match i.type with
+          | .number => if isNum d.value then [] else [⟨d.pos, "events", "dispatch-default-not-number", [i.name.value, d.value]⟩]
+          | .boolean => if lower d.value = "true" || lower d.value = "false" then [] else [⟨d.pos, "events", "dispatch-default-not-bool", [n, d.value]⟩]
+          | _ => [])
+       | none => [])) ++
+  (if inputs.length > 10 then [⟨pos, "events", "too-many-inputs", [toString inputs.length]⟩] else [])
+
+def ruleEvents (lower : String → String) (isNum : String → Bool) (w : Workflow) : List Diag :=
+  (w.on.getD []).flatMap fun e =>
+    match e with
+    | .webhook h => checkWebhookEvent h
+    | .dispatch inputs pos => checkDispatchEvent lower isNum (inputs.getD []) pos
+    | .call inputs _ _ _ => checkCallEvent lower isNum (inputs.getD [])
+    | _ => []
+
 /-! ### the tail of `Linter.check` -/
 
 def less (a b : Diag) : Bool := if a.pos.line = b.pos.line then a.pos.col < b.pos.col else a.pos.line < b.pos.line
@@ -265,13 +495,13 @@ def stableSort (l : List Diag) : List Diag := l.foldl (fun acc x => insertStable
 def ofPErr (e : AL.PW.PErr) : Diag := ⟨e.pos, "syntax-check", e.code, e.args⟩
 
 /-- all diagnostics of the modelled rules, in the order of linter.go's rule list -/
-def rules (lower : String → String) (w : Workflow) : List Diag :=
-  ruleMatrix w ++ ruleCredentials w ++ ruleJobNeeds lower w ++ ruleEnvVar w ++ ruleId lower w ++ ruleGlob w ++
-  rulePermissions w ++ ruleIfCond w
+def rules (lower : String → String) (isNum : String → Bool) (w : Workflow) : List Diag :=
+  ruleMatrix w ++ ruleCredentials w ++ ruleShellName lower w ++ ruleEvents lower isNum w ++ ruleJobNeeds lower w ++ ruleEnvVar w ++
+  ruleId lower w ++ ruleGlob w ++ rulePermissions w ++ ruleDeprecatedCommands w ++ ruleIfCond w
 
 /-- `Linter.check` restricted to the parser and the modelled rules -/
-def lint (cfg : AL.PW.Cfg) (doc : Node) : List Diag :=
+def lint (cfg : AL.PW.Cfg) (isNum : String → Bool) (doc : Node) : List Diag :=
   let r := AL.PW.parse cfg doc
-  stableSort (r.2.map ofPErr ++ rules cfg.lower r.1)
+  stableSort (r.2.map ofPErr ++ rules cfg.lower isNum r.1)
 
 end AL.Rules
